@@ -74,6 +74,7 @@ fn random(a: &Args) {
     let mut samples = Vec::new();
     for k in 0..count {
         shredh::unwind::set(rng.gen_bool(a.num("punwind", 0.08)));
+        shredh::record::set_early_pool(rng.gen_bool(0.3));
         let mut cfg = base.clone();
         cfg.n_res = rng.gen_range(2..=base.n_res.max(2));
         // now and then a funnel program: groups filled to the capacity limit
@@ -83,7 +84,7 @@ fn random(a: &Args) {
         let variant = if rng.gen_bool(0.5) { Variant::identity(&res) } else { Variant::random(&res, &mut rng) };
         let gated = rng.gen_bool(gated_share);
         #[cfg(feature = "parallel")]
-        let p = if rng.gen_bool(a.num("pool1", 0.05)) {
+        let p = if rng.gen_bool(a.num("pool1", 0.08)) {
             small_pools[0].clone() // exactly one worker
         } else if gated {
             gate_pool.clone()
@@ -249,9 +250,12 @@ fn lifecycle_cmd(a: &Args) {
     let mut maxdepth = 0;
     for k in 0..count {
         shredh::unwind::set(rng.gen_bool(a.num("punwind", 0.12)));
+        shredh::record::set_early_pool(rng.gen_bool(0.3));
         let mut cfg = base.clone();
         cfg.n_res = rng.gen_range(2..=base.n_res.max(2));
-        let prog = gen_prog(&mut rng, &cfg, 0, "");
+        let degenerate = rng.gen_bool(0.05);
+        shredh::record::set_no_pool(rng.gen_bool(if degenerate { 0.5 } else { 0.03 }));
+        let prog = if degenerate { shredh::prog::gen_degenerate(&mut rng) } else { gen_prog(&mut rng, &cfg, 0, "") };
         let mut res = Vec::new();
         prog.resources(&mut res);
         #[cfg(feature = "parallel")]
@@ -315,6 +319,7 @@ fn async_cmd(a: &Args) {
     let mut samples = Vec::new();
     for k in 0..count {
         shredh::unwind::set(rng.gen_bool(a.num("punwind", 0.12)));
+        shredh::record::set_early_pool(rng.gen_bool(0.3));
         let mut cfg = base.clone();
         cfg.n_res = rng.gen_range(2..=base.n_res.max(2));
         let prog = gen_prog(&mut rng, &cfg, 0, "");
